@@ -79,7 +79,7 @@ func sameFieldComparisons(f *ssa.Function) (covered map[string]bool, bad []strin
 
 func init() {
 	register(&Rule{
-		ID: "reload.equality-audit", Props: []string{"C14"}, Floor: 6,
+		ID: "reload.equality-audit", Props: []string{"C14", "C13"}, Floor: 6,
 		Doc: "the rule equality functions used to decide controller reuse (flow.Rule.isEqualsTo, circuitbreaker.Rule.isEqualsTo + isEqualsToBase, hotspot.Rule.Equals) compare only the same field on both sides (==, util.Float64Equals, reflect.DeepEqual), cover every field of the rule struct except the frozen exemptions, and return false only on a branch where some same-field comparison failed (or the other rule is nil): field-identical rules compare equal, and a modified behaviour-relevant field is never missed",
 		Run: func(c *Ctx) {
 			for _, es := range eqSpecs {
